@@ -49,12 +49,14 @@ Theorem C06_establish : forall md5, (forall x, length (md5 x) = 16%nat) ->
 Proof. exact establish_accepted. Qed.
 Print Assumptions C06_establish.
 
-(* order: a capabilities / challenge / activate request that arrives in any other phase
-   than its own is flagged by the automaton - so "accepted" above implies the order *)
+(* order: a capabilities / challenge / activate request is flagged by the automaton unless it
+   arrives in its own phase or is repeated right after it (retransmission after a lost reply) -
+   so "accepted" above implies the order *)
 Theorem C06_order : forall md5 p s pp lun data,
-  (b_ph s <> P1 -> b_viol (fst (bmc_logic md5 p s pp 6 lun 0x38 data)) <> None) /\
-  (b_ph s <> P2 -> b_viol (fst (bmc_logic md5 p s pp 6 lun 0x39 data)) <> None) /\
-  ((forall a, b_ph s <> P3 a) -> b_viol (fst (bmc_logic md5 p s pp 6 lun 0x3a data)) <> None).
+  (b_ph s <> P1 -> b_ph s <> P2 -> b_viol (fst (bmc_logic md5 p s pp 6 lun 0x38 data)) <> None) /\
+  (b_ph s <> P2 -> (forall a, b_ph s <> P3 a) -> b_viol (fst (bmc_logic md5 p s pp 6 lun 0x39 data)) <> None) /\
+  ((forall a, b_ph s <> P3 a) -> (forall a, b_ph s <> P4 a None) ->
+   b_viol (fst (bmc_logic md5 p s pp 6 lun 0x3a data)) <> None).
 Proof. exact order_enforced. Qed.
 Print Assumptions C06_order.
 
